@@ -331,7 +331,7 @@ func (b *Bench) confDNS(s Server, o StreamOptions) (c dnsserver.ConfigDNS) {
 // few times, since the UDP+TCP servers need the same free port number on both
 // networks.
 func startRetry[T dnsserver.Server](b *Bench, mk func() T) (s T, err error) {
-	for attempt := 0; attempt < 5; attempt++ {
+	for attempt := 0; attempt < 20; attempt++ {
 		s = mk()
 		err = s.Start(context.Background())
 		if err == nil {
@@ -349,9 +349,39 @@ func startRetry[T dnsserver.Server](b *Bench, mk func() T) (s T, err error) {
 	return s, err
 }
 
+// dualAddr returns "127.0.0.1:port" for a port that was free on both TCP and
+// UDP a moment ago.  The servers that listen on both networks open UDP first
+// and then insist on the same TCP port; on a machine with many connections in
+// TIME_WAIT that port is usually taken, so the bench picks the port from the
+// TCP side, which is the crowded one.  Falls back to port 0.
+func dualAddr() (addr string) {
+	for attempt := 0; attempt < 50; attempt++ {
+		l, err := net.Listen("tcp", "127.0.0.1:0")
+		if err != nil {
+			continue
+		}
+
+		addr = l.Addr().String()
+		pc, err := net.ListenPacket("udp", addr)
+		_ = l.Close()
+		if err != nil {
+			continue
+		}
+
+		_ = pc.Close()
+
+		return addr
+	}
+
+	return "127.0.0.1:0"
+}
+
 func (b *Bench) startDNS() (err error) {
 	b.DNS, err = startRetry(b, func() *dnsserver.ServerDNS {
-		return dnsserver.NewServerDNS(b.confDNS(SrvDNS, b.conf.DNS))
+		c := b.confDNS(SrvDNS, b.conf.DNS)
+		c.Addr = dualAddr()
+
+		return dnsserver.NewServerDNS(c)
 	})
 	if err != nil {
 		b.DNS = nil
@@ -478,8 +508,11 @@ func (b *Bench) startDNSCrypt() (err error) {
 	}
 
 	b.DNSCrypt, err = startRetry(b, func() *dnsserver.ServerDNSCrypt {
+		cb := b.base(SrvDNSCrypt)
+		cb.Addr = dualAddr()
+
 		return dnsserver.NewServerDNSCrypt(dnsserver.ConfigDNSCrypt{
-			ConfigBase:           b.base(SrvDNSCrypt),
+			ConfigBase:           cb,
 			DNSCryptResolverCert: cert,
 			DNSCryptProviderName: rc.ProviderName,
 		})
